@@ -255,7 +255,7 @@ PROPERTIES = {
     "C01": E_ROUNDTRIP(
         overlay={"gen/roundtrip/zz_verif_c01a.go": "harness/c01/c01_common.go", "gen/roundtrip/zz_verif_c01b.go": "harness/c01/c01_roundtrip.go"},
         harnesses=[dict(func="VerifC01RoundTrip", reach=["C01/delivered", "C01/kf-zero-required", "C01/octet-stream"], quick=dict(budget=400, parts=8), thorough=dict(budget=1500, parts=16))],
-        bounds_text={"quick": "one service with 5 RPCs (GET with path+4 query fields, POST body, PUT and PATCH path+body incl. repeated field, DELETE with int64 path variable); content type in {json, x-protobuf, octet-stream}; path-bound strings <= 2 chars over [ab +/%?#], query strings <= 2 over [ab &=+%], body strings <= 3 printable ASCII, all integers full range, response with symbolic id/total/ok and 0..1 items; client and server are the emitted code, joined by an in-process transport and the mux model"},
+        bounds_text={"quick": "one service with 5 RPCs (GET with path+4 query fields, POST body, PUT and PATCH path+body incl. repeated field, DELETE with int64 path variable); content type in {json, x-protobuf, octet-stream}; path-bound strings <= 2 chars over [ab +/%?#], query strings <= 2 over [ab &=+%,;], body strings <= 3 printable ASCII, all integers full range, response with symbolic id/total/ok and 0..1 items; client and server are the emitted code, joined by an in-process transport and the mux model"},
         assumptions=E_ASSUMPTIONS + ["url.PathEscape/QueryEscape with the mux's unescaping, and url.Values.Encode with URL.Query, are modelled as the documented inverse pairs; http.Client.Do = Transport.RoundTrip; ServeMux registration/dispatch by a segment matcher",
                                      "non-ASCII text, map/oneof/optional body fields and the JSON-mapping annotations are not in this check's schema (C04/C05 family)"]),
     "C17": dict(mode="E", schemas=[dict(name="binding", run="go,go-http"), dict(name="roundtrip", run="go,go-http,go-client")],
